@@ -182,6 +182,9 @@ func pinnedC13() []*pgen.Case {
 	return []*pgen.Case{
 		mk("pin_error_type", "// goverter:converter\ntype Converter interface {\n\tM(source In) Out\n}\ntype In struct{ E error; L []error }\ntype Out struct{ E error; L []error }\n", "-g", "skipCopySameType"),
 		mk("pin_uintptr", "import \"unsafe\"\n\n// goverter:converter\ntype Converter interface {\n\tM(source In) Out\n}\ntype In struct{ U uintptr; P unsafe.Pointer; Q *unsafe.Pointer }\ntype Out struct{ U uintptr; P unsafe.Pointer; Q *unsafe.Pointer }\n"),
+		mk("pin_unicode_field_mismatch", "// goverter:converter\ntype Converter interface {\n\tM(source Eingabe) Ausgabe\n}\ntype Eingabe struct{ Name string; Größe string }\ntype Ausgabe struct{ Name string; Größe int }\n"),
+		mk("pin_unicode_nested_mismatch", "// goverter:converter\ntype Converter interface {\n\tM(source Eingabe) Ausgabe\n}\ntype Eingabe struct{ Ä struct{ 日本語のフィールド名前 []map[string]string } }\ntype Ausgabe struct{ Ä struct{ 日本語のフィールド名前 []map[string]int } }\n"),
+		mk("pin_unicode_type_names", "// goverter:converter\ntype Converter interface {\n\tM(source Größe) Maß\n}\ntype Größe struct{ Ünïcödé string }\ntype Maß struct{ Ünïcödé chan int }\n"),
 		mk("pin_generic_iface", "// goverter:converter\ntype Converter[T any] interface {\n\tM(source int) int\n\tN(T) T\n}\n"),
 		mk("pin_automap_dot", "// goverter:converter\ntype Converter interface {\n\t// goverter:autoMap .Name\n\tM(source In) Out\n}\ntype In struct{ Name string }\ntype Out struct{ Name string }\n"),
 		mk("pin_automap_dot2", "// goverter:converter\ntype Converter interface {\n\t// goverter:autoMap .\n\tM(source In) Out\n}\ntype In struct{ Name string }\ntype Out struct{ Name string }\n"),
